@@ -263,7 +263,13 @@ type Checker struct {
 	Solver *smt.Solver
 	// LastDeviation: set by Differential when the real pipeline (not the model) departs from the reference
 	LastDeviation *Outcome
+	// KnownPath: the class KnownPathClass is listed in the known-findings file
+	KnownPath bool
 }
+
+// KnownPathClass: the value set of a path misses what is reached through a mid-path resource that has
+// no node object of its own (an id that is only ever referred to).
+const KnownPathClass = "mid-path-resource-without-node-object"
 
 func (c *Checker) solve(side []*smt.Term, goal *smt.Term, vars []*smt.Term) (smt.Result, map[string]uint64) {
 	c.Solver.Reset()
@@ -565,12 +571,16 @@ func (c *Checker) CheckPath(path Path, mode string, sc Scope, code string, profi
 		out.Status, out.Detail = "unsupported", "no generated path rule found"
 		return
 	}
-	ref := &Ref{G: g}
-	goal := smt.False
+	// two references: the statement's (a path composes through every resource that is referred to) and
+	// the one that stops at resources without a node object of their own. A deviation from the first
+	// that is no deviation from the second belongs to one class (KnownPathClass); every other one is
+	// judged against the second as before.
+	refStrict, ref := &Ref{G: g, Strict: true}, &Ref{G: g}
+	goal, goalStrict := smt.False, smt.False
 	type cmp struct {
-		node      int
-		key       string
-		impl, ref *smt.Term
+		node             int
+		key              string
+		impl, ref, loose *smt.Term // ref: the statement's denotation
 	}
 	var cmps []cmp
 	for i := 0; i < g.N; i++ {
@@ -602,34 +612,44 @@ func (c *Checker) CheckPath(path Path, mode string, sc Scope, code string, profi
 				}
 			}
 		}
-		want := map[string]*smt.Term{}
-		if mode == "nodes" {
-			for j, t := range ref.DenNodes(path, i) {
-				want[nodeKey(j)] = t
-			}
-		} else {
-			for _, it := range ref.DenValues(path, i) {
-				want[it.Key] = it.G
+		wants := [2]map[string]*smt.Term{{}, {}}
+		for pass, rf := range []*Ref{ref, refStrict} {
+			if mode == "nodes" {
+				for j, t := range rf.DenNodes(path, i) {
+					wants[pass][nodeKey(j)] = t
+				}
+			} else {
+				for _, it := range rf.DenValues(path, i) {
+					wants[pass][it.Key] = it.G
+				}
 			}
 		}
 		keys := map[string]bool{}
 		for k := range impl {
 			keys[k] = true
 		}
-		for k := range want {
-			keys[k] = true
+		for _, w := range wants {
+			for k := range w {
+				keys[k] = true
+			}
 		}
 		for k := range keys {
-			a, ok1 := impl[k]
-			b, ok2 := want[k]
-			if !ok1 {
+			a, loose, strict := impl[k], wants[0][k], wants[1][k]
+			if a == nil {
 				a = smt.False
 			}
-			if !ok2 {
-				b = smt.False
+			if loose == nil {
+				loose = smt.False
 			}
-			cmps = append(cmps, cmp{i, k, a, b})
-			goal = smt.Or(goal, smt.And(g.Exists[i], smt.Not(smt.Eq(a, b))))
+			if strict == nil {
+				strict = smt.False
+			}
+			cmps = append(cmps, cmp{i, k, a, strict, loose})
+			offStrict := smt.And(g.Exists[i], smt.Not(smt.Eq(a, strict)))
+			// a deviation from the statement's denotation that the other reference does not explain ...
+			goal = smt.Or(goal, smt.And(offStrict, smt.Not(smt.Eq(a, loose))))
+			// ... and one that it does explain (the known class)
+			goalStrict = smt.Or(goalStrict, smt.And(offStrict, smt.Eq(a, loose)))
 		}
 	}
 	out.Steps = ev.Steps
@@ -638,6 +658,52 @@ func (c *Checker) CheckPath(path Path, mode string, sc Scope, code string, profi
 	res, m := c.solve(g.Side, goal, g.Vars)
 	switch res {
 	case smt.Unsat:
+		// no deviation from the second reference: is there one from the statement's?
+		out.Queries++
+		resS, mS := c.solve(g.Side, goalStrict, g.Vars)
+		if resS == smt.Unknown {
+			out.Status, out.Detail = "solver-unknown", "path query (strict composition) undecided"
+			return
+		}
+		if resS == smt.Unsat {
+			return
+		}
+		// a deviation of the known class: confirm it with the real engine on the really normalised document
+		data, desc := g.Concrete(mS)
+		hit := KnownHit{Signature: KnownPathClass, Data: data, Detail: fmt.Sprint(desc)}
+		if norm, err := c.Drv.Normalize([]string{data}); err == nil && norm[0].Error == "" {
+			for _, x := range cmps {
+				if !(evalBool(g.Exists[x.node], mS) && evalBool(x.impl, mS) != evalBool(x.ref, mS) && evalBool(x.impl, mS) == evalBool(x.loose, mS)) {
+					continue
+				}
+				keys, err := EvalPathNative(code, mod.Package.Path.String(), rule, norm[0].Report, g.IDs[x.node], g)
+				if err != nil {
+					break
+				}
+				has := false
+				for _, k := range keys {
+					if k == x.key {
+						has = true
+					}
+				}
+				hit.Confirmed = has != evalBool(x.ref, mS)
+				hit.Detail += fmt.Sprintf(" | from n%d: %s expected=%v, real OPA yields %v", x.node+1, x.key, evalBool(x.ref, mS), keys)
+				break
+			}
+		}
+		if !c.KnownPath || !hit.Confirmed {
+			// not listed (or not reproduced by the real engine): reported like any other deviation
+			out.Data, out.Model = hit.Data, desc
+			out.Label = "C02.set-eq-denotation"
+			out.Signature = KnownPathClass
+			out.Detail = hit.Detail
+			out.Status = "violation"
+			if !hit.Confirmed {
+				out.Status = "model-mismatch"
+			}
+			return
+		}
+		out.KnownHits = append(out.KnownHits, hit)
 		return
 	case smt.Unknown:
 		out.Status, out.Detail = "solver-unknown", "path query undecided"
@@ -647,7 +713,7 @@ func (c *Checker) CheckPath(path Path, mode string, sc Scope, code string, profi
 	out.Data, out.Model = data, desc
 	var diffs []string
 	for _, x := range cmps {
-		if evalBool(g.Exists[x.node], m) && evalBool(x.impl, m) != evalBool(x.ref, m) {
+		if evalBool(g.Exists[x.node], m) && evalBool(x.impl, m) != evalBool(x.ref, m) && evalBool(x.impl, m) != evalBool(x.loose, m) {
 			diffs = append(diffs, fmt.Sprintf("from n%d: %s impl=%v ref=%v", x.node+1, x.key, evalBool(x.impl, m), evalBool(x.ref, m)))
 		}
 	}
@@ -662,7 +728,7 @@ func (c *Checker) CheckPath(path Path, mode string, sc Scope, code string, profi
 		return
 	}
 	for _, x := range cmps {
-		if !(evalBool(g.Exists[x.node], m) && evalBool(x.impl, m) != evalBool(x.ref, m)) {
+		if !(evalBool(g.Exists[x.node], m) && evalBool(x.impl, m) != evalBool(x.ref, m) && evalBool(x.impl, m) != evalBool(x.loose, m)) {
 			continue
 		}
 		keys, err := EvalPathNative(code, mod.Package.Path.String(), rule, norm[0].Report, g.IDs[x.node], g)
